@@ -2,7 +2,9 @@
 //!
 //! t0 = a .tfm: a corpus file, `pl_to_tfm` of a corpus .plst, `pl_to_tfm` of a generated property
 //! list rendered as PL text (sub-check `generated`), or the same generated font written by an
-//! independent TFM writer in a legal but scrambled, non-canonical layout (`generated_tfm`). If `tfm_to_pl(t0)` is
+//! independent TFM writer in a legal but scrambled, non-canonical layout (`generated_tfm`; this includes indirect
+//! entry words, skip_byte > 128, in the middle of the lig/kern table, e.g. inside the range a SKIP jumps over,
+//! which PLtoTF itself only ever writes at the front), or a hand-made file (`raw_tfm`). If `tfm_to_pl(t0)` is
 //! warning-free, t1 = pl_to_tfm(tfm_to_pl(t0)) must be (i) a fixed point of a further round trip
 //! (byte identical, no warning on either leg, independent of the character display format),
 //! (ii) the same font as t0 for an independent reader of the TFM format (TeX 540-546): resolved
@@ -598,6 +600,49 @@ fn classify(v: &View, case: &mut Case) -> Shape {
     Shape { shared, big, boundary_rule: left_prog || right_rule }
 }
 
+/// Where the indirect entry words (skip_byte > 128, TeX 573: "the program starts at 256*op_byte+remainder") of t0
+/// sit. PLtoTF 139-141 puts them in front of all instructions (and the left-boundary word behind the last one); a
+/// word is "in the middle" when a real instruction precedes it and it is not the left-boundary word.
+fn indirect_words(r: &Raw, v: &View, case: &mut Case) {
+    let nl = r.lk.len();
+    let Some(first_real) = r.lk.iter().position(|s| s[0] <= 128) else { return };
+    let left_word = |j: usize| j + 1 == nl && r.lk[j][0] == 255;
+    let mut users: BTreeMap<usize, u32> = BTreeMap::new();
+    let mut direct: BTreeSet<usize> = BTreeSet::new();
+    for w in r.ci.iter().filter(|w| w[0] != 0 && w[2] & 3 == 1 && (w[3] as usize) < nl) {
+        if r.lk[w[3] as usize][0] > 128 {
+            *users.entry(w[3] as usize).or_default() += 1;
+        } else {
+            direct.insert(w[3] as usize);
+        }
+    }
+    let live: BTreeSet<usize> = v.walks.values().flatten().copied().collect();
+    let left_walk: BTreeSet<usize> = v.walks.get(&LEFT_BOUNDARY).map(|w| w.iter().copied().collect()).unwrap_or_default();
+    let jumps = |set: &BTreeSet<usize>, j: usize| set.iter().filter(|i| (1..128).contains(&r.lk[**i][0]) && **i < j && j <= **i + r.lk[**i][0] as usize).count();
+    let target = |j: usize| 256 * r.lk[j][2] as usize + r.lk[j][3] as usize;
+    let real = |j: usize| j < nl && r.lk[j][0] <= 128;
+    let middle: Vec<usize> = (first_real + 1..nl).filter(|j| r.lk[*j][0] > 128 && !left_word(*j)).collect();
+    let used: Vec<usize> = middle.iter().copied().filter(|j| users.contains_key(j)).collect();
+    case.class_if(!used.is_empty(), "lig: indirect entry word in the middle of the table");
+    case.class_if(used.len() >= 2, "lig: two or more indirect entry words in the middle of the table");
+    case.class_if(used.iter().any(|j| jumps(&live, *j) > 0), "lig: indirect entry word inside a SKIP range");
+    case.class_if(used.iter().any(|j| jumps(&live, *j) >= 2), "lig: indirect entry word inside two SKIP ranges");
+    case.class_if(used.iter().any(|j| jumps(&left_walk, *j) > 0), "lig: indirect entry word inside a SKIP range of the left-boundary program");
+    case.class_if(live.iter().any(|i| (1..128).contains(&r.lk[*i][0]) && used.iter().filter(|j| **j > *i && **j <= *i + r.lk[*i][0] as usize).count() >= 2), "lig: two indirect entry words inside one SKIP range");
+    case.class_if(live.iter().any(|i| (1..128).contains(&r.lk[*i][0]) && (*i + 1..=*i + r.lk[*i][0] as usize).all(|j| used.contains(&j))), "lig: a SKIP jumps over indirect entry words only");
+    case.class_if(used.iter().any(|j| jumps(&live, *j) == 0 && live.contains(&(*j - 1)) && live.contains(&(*j + 1))), "lig: indirect entry word between two programs");
+    case.class_if(used.iter().any(|j| real(*j - 1) && !live.contains(&(*j - 1))), "lig: indirect entry word directly after an unreachable instruction");
+    case.class_if(used.iter().any(|j| real(*j + 1) && !live.contains(&(*j + 1))), "lig: indirect entry word directly before an unreachable instruction");
+    case.class_if(used.iter().any(|j| users[j] >= 2), "lig: indirect entry word in the middle shared by several characters");
+    case.class_if(used.iter().any(|j| direct.contains(&target(*j))), "lig: one start entered directly and through an indirect word in the middle");
+    case.class_if(used.iter().any(|j| users.keys().any(|k| k != j && !left_word(*k) && target(*k) == target(*j))), "lig: one start entered through two indirect words");
+    case.class_if(used.iter().any(|j| target(*j) < *j), "lig: indirect entry word in the middle pointing backwards");
+    case.class_if(used.iter().any(|j| *j + 1 == nl || (*j + 2 == nl && left_word(nl - 1))), "lig: indirect entry word behind the last instruction");
+    case.class_if(used.iter().any(|j| r.lk[*j][0] == 255), "lig: indirect entry word in the middle with skip_byte 255");
+    case.class_if(middle.iter().any(|j| !users.contains_key(j)), "lig: unused indirect word in the middle of the table");
+    case.class_if(nl > 0 && users.contains_key(&(nl - 1)) && left_word(nl - 1), "lig: character enters through the left-boundary word");
+}
+
 /// Instruction indices reached from `start` by following skip bytes (TeX 1039 / TFtoPL 70).
 fn walk_from(r: &Raw, start: usize) -> Vec<usize> {
     let nl = r.lk.len();
@@ -886,6 +931,7 @@ fn check_font(t0: &[u8], fmt: u8, known_orphan: bool, case: &mut Case) -> Verdic
         });
         case.class_if(mixed_range, "skip: range with reachable and unreachable instructions");
     }
+    indirect_words(&r0, &v0, case);
     // orphans
     let o = orphans(&r0, &v0);
     case.class_if(o.lig_inside, "t0: orphan lig tag inside the tight range");
@@ -964,6 +1010,10 @@ pub struct Recipe {
     /// like the selector of `scheme`: 2 = exactly 19 bytes, 3 = trailing blank, 4 = 19 bytes ending in a blank
     #[serde(default)]
     pub family_kind: u8,
+    /// own TFM writer only: indirect entry words in the MIDDLE of the lig/kern table. (kind of place, place selector,
+    /// target selector, 0 = no lig tag points to it, skip_byte selector, next_char byte)
+    #[serde(default)]
+    pub mid: Vec<(u8, u16, u16, u8, u8, u8)>,
 }
 
 #[derive(Clone, Copy, Debug, PartialEq, Eq)]
@@ -1640,6 +1690,7 @@ fn recipe() -> BoxedStrategy<Recipe> {
                 proptest::option::weighted(0.2, (any::<u8>(), any::<u16>(), any::<u16>())),
                 proptest::bool::weighted(0.35),
                 any::<u8>(),
+                prop_oneof![1 => Just(vec![]), 1 => proptest::collection::vec((any::<u8>(), any::<u16>(), any::<u16>(), 0u8..8, any::<u8>(), any::<u8>()), 1..=3)],
             );
             let pools = (
                 prop_oneof![3 => proptest::collection::vec(fixword(), 1..=30), 2 => proptest::collection::vec(fixword(), 300..=340)],
@@ -1691,6 +1742,7 @@ fn recipe() -> BoxedStrategy<Recipe> {
             long_skip: m.1,
             seven_bias: m.2,
             family_kind: m.3,
+            mid: m.4,
         })
         .boxed()
 }
@@ -1823,10 +1875,24 @@ struct Written {
     orphan_lig_inside: bool,
 }
 
+/// An indirect entry word that `write_tfm` puts into the middle of the lig/kern table.
+struct Mid {
+    /// it sits directly in front of this step (flat index; the number of steps = behind the last one)
+    at: usize,
+    /// flat index of the step it redirects to (the start of some character's program)
+    target: usize,
+    /// some character's lig tag points to it
+    used: bool,
+    skip: u8,
+    next: u8,
+}
+
 /// `safe`: the font is seven-bit safe (PLtoTF 110-113), so the file may carry the flag.
-fn write_tfm(f: &GFont, seed: u64, safe: bool) -> Written {
+fn write_tfm(f: &GFont, seed: u64, safe: bool, mid: &[(u8, u16, u16, u8, u8, u8)]) -> Written {
     let mut e = Ent(seed);
-    let plain = seed % 5 == 0; // sometimes the straightforward layout
+    // the choices that came with the indirect words in the middle draw from their own stream
+    let mut e2 = Ent(mix(seed, 0x6d69_64));
+    let plain = seed % 5 == 0; // sometimes the straightforward layout (apart from the words that `mid` asks for)
     let word = |out: &mut Vec<u8>, w: [u8; 4]| out.extend(w);
     // ---- header
     let mut header: Vec<[u8; 4]> = vec![f.checksum.unwrap_or(0).to_be_bytes(), f.design_size.to_be_bytes()];
@@ -1923,13 +1989,83 @@ fn write_tfm(f: &GFont, seed: u64, safe: bool) -> Written {
     let left_start: Option<usize> = labels.iter().find(|(l, _)| *l == LEFT_BOUNDARY).map(|(_, p)| *p);
     let mut lk: Vec<[u8; 4]> = vec![];
     let mut remainder: BTreeMap<u8, u8> = BTreeMap::new();
-    let mut front_len = 0usize;
-    if !flat.is_empty() || f.boundary.is_some() {
-        // positions grouped, because two characters with one start may share a redirect
-        let mut by_pos: BTreeMap<usize, Vec<u8>> = BTreeMap::new();
-        for (c, p) in &char_labels {
-            by_pos.entry(*p).or_default().push(*c);
+    // flat index -> index in the lig/kern table of the file
+    let mut flat_pos: Vec<usize> = (0..flat.len()).collect();
+    // positions grouped, because two characters with one start may share a redirect
+    let mut by_pos: BTreeMap<usize, Vec<u8>> = BTreeMap::new();
+    for (c, p) in &char_labels {
+        by_pos.entry(*p).or_default().push(*c);
+    }
+    // ---- indirect entry words (skip_byte > 128, TeX 573/1039, TFtoPL 67 "pass_through") in the MIDDLE of the table,
+    // where PLtoTF never puts them: inside the range a reachable instruction jumps over, between two programs, next
+    // to unreachable instructions, after the last instruction. Word `at` sits directly in front of flat[at]. No
+    // walk may run into such a word (TFtoPL 74 prints a bare (STOP) for an accessible one, which PLtoTF rejects):
+    // the skip_byte of every step that continues behind an inserted word grows by one per word it has to jump over
+    // (a step that simply went on to the next word gets skip_byte 1) and has to stay below 128.
+    let nf = flat.len();
+    let mut reach = vec![false; nf];
+    for (_, p) in &labels {
+        if *p < nf {
+            reach[*p] = true;
         }
+    }
+    for i in 0..nf {
+        if reach[i] {
+            let t = match flat[i].next {
+                GNext::Stop => continue,
+                GNext::Cont => i + 1,
+                GNext::Skip(m) => i + 1 + m as usize,
+            };
+            if t < nf {
+                reach[t] = true;
+            }
+        }
+    }
+    let mut mids: Vec<Mid> = vec![];
+    if !by_pos.is_empty() && !mid.is_empty() {
+        let starts: Vec<usize> = by_pos.keys().copied().collect();
+        // an index a char_info remainder can hold, however many redirects end up at the front
+        let allowed: Vec<usize> = (1..=nf).filter(|p| *p + starts.len() + 4 <= 255).collect();
+        let mut jumped: BTreeSet<usize> = BTreeSet::new();
+        for i in 0..nf {
+            if let (true, GNext::Skip(m)) = (reach[i], flat[i].next) {
+                if m > 0 {
+                    jumped.extend(i + 1..=i + 1 + m as usize);
+                }
+            }
+        }
+        let in_skip: Vec<usize> = allowed.iter().copied().filter(|p| jumped.contains(p)).collect();
+        let by_junk: Vec<usize> = allowed.iter().copied().filter(|p| !reach[*p - 1] || (*p < nf && !reach[*p])).collect();
+        // behind the STOP that ends one program and in front of the first instruction of the next
+        let between: Vec<usize> = allowed.iter().copied().filter(|p| *p < nf && reach[*p - 1] && flat[*p - 1].next == GNext::Stop && reach[*p] && !jumped.contains(p)).collect();
+        for (kind, place, target, used, skip, next) in mid.iter().copied() {
+            let pool = match kind % 6 {
+                0 | 1 if !in_skip.is_empty() => &in_skip,
+                2 if !by_junk.is_empty() => &by_junk,
+                3 if !between.is_empty() => &between,
+                _ => &allowed,
+            };
+            if pool.is_empty() {
+                break;
+            }
+            let at = pool[place as usize % pool.len()];
+            let too_long = (0..nf).any(|i| match flat[i].next {
+                GNext::Skip(m) => i < at && at <= i + 1 + m as usize && m as usize + 1 + mids.iter().filter(|x| x.at > i && x.at <= i + 1 + m as usize).count() > 127,
+                _ => false,
+            });
+            if too_long {
+                continue;
+            }
+            // one in eight is pointed to by nobody: an unreachable word that is not "pass_through" either
+            mids.push(Mid { at, target: starts[target as usize % starts.len()], used: used != 0, skip: 129 + skip % 127, next });
+        }
+        mids.sort_by_key(|m| m.at);
+    }
+    let shift = |p: usize| mids.iter().filter(|m| m.at <= p).count();
+    let grown = |i: usize, m: u8| m as usize + mids.iter().filter(|x| x.at > i && x.at <= i + 1 + m as usize).count();
+    debug_assert!(flat.iter().enumerate().all(|(i, s)| !matches!(s.next, GNext::Skip(m) if grown(i, m) > 127)));
+    if !flat.is_empty() || f.boundary.is_some() {
+        let served = |p: usize| mids.iter().any(|m| m.used && m.target == p);
         // Fixed-point: the number of front instructions decides who needs a redirect.
         let wish: BTreeMap<usize, bool> = by_pos.keys().map(|p| (*p, !plain && e.chance(5))).collect();
         let has_b = f.boundary.is_some();
@@ -1937,14 +2073,14 @@ fn write_tfm(f: &GFont, seed: u64, safe: bool) -> Written {
         let double_duty = has_b && !plain && seed % 3 == 1;
         let mut front = has_b as usize;
         loop {
-            let need = by_pos.keys().filter(|p| wish[*p] || **p + front > 255).count();
+            let need = by_pos.keys().filter(|p| wish[*p] || (**p + shift(**p) + front > 255 && !served(**p))).count();
             let slots = if has_b && !(double_duty && need > 0) { need + 1 } else { need };
             if slots <= front {
                 break;
             }
             front = slots; // `need` never decreases when `front` grows, so this terminates with slots == front
         }
-        let mut redirects: Vec<usize> = by_pos.keys().copied().filter(|p| wish[p] || *p + front > 255).collect();
+        let mut redirects: Vec<usize> = by_pos.keys().copied().filter(|p| wish[p] || (*p + shift(*p) + front > 255 && !served(*p))).collect();
         // METAFONT-like order is irrelevant: shuffle which slot serves which start
         if !plain {
             for k in (1..redirects.len()).rev() {
@@ -1968,27 +2104,53 @@ fn write_tfm(f: &GFont, seed: u64, safe: bool) -> Written {
         }
         debug_assert_eq!(slots.len(), front);
         let front = slots.len();
-        front_len = front;
+        for (p, at) in flat_pos.iter_mut().enumerate() {
+            *at = front + p + shift(p);
+        }
         for (k, s) in slots.iter().enumerate() {
-            let target = s.map(|p| p + front).unwrap_or(0);
+            let target = s.map(|p| flat_pos[p]).unwrap_or(0);
             let skip = if k == 0 && has_b { 255 } else { 129 + (e.next() % 126) as u8 * (!plain) as u8 + 125 * plain as u8 };
             let next = if k == 0 && has_b { f.boundary.unwrap() } else { 0 };
             lk.push([skip, next, (target >> 8) as u8, target as u8]);
         }
+        // table index of the k-th inserted word: the words in front of it, the steps in front of it, the front
+        let mid_index = |k: usize| front + mids[k].at + k;
         for (p, cs) in &by_pos {
-            for c in cs {
-                let r = match slot_of.get(p) {
-                    Some(s) => *s,
-                    None => p + front,
+            let base = match slot_of.get(p) {
+                Some(s) => Some(*s),
+                None if flat_pos[*p] <= 255 => Some(flat_pos[*p]),
+                None => None,
+            };
+            let through: Vec<usize> = (0..mids.len()).filter(|k| mids[*k].used && mids[*k].target == *p).map(mid_index).collect();
+            for (k, c) in cs.iter().enumerate() {
+                // every inserted word gets a character as long as there are characters; the others choose
+                let r = if k < through.len() {
+                    through[k]
+                } else {
+                    let n = through.len() + base.is_some() as usize;
+                    let j = if n > 1 { e2.below(n) } else { 0 };
+                    if j < through.len() {
+                        through[j]
+                    } else {
+                        base.expect("a start beyond 255 without an inserted word has a redirect at the front")
+                    }
                 };
+                debug_assert!(r <= 255);
                 remainder.insert(*c, r as u8);
             }
         }
-        for s in &flat {
+        let mut next_mid = 0usize;
+        for (i, s) in flat.iter().enumerate() {
+            while next_mid < mids.len() && mids[next_mid].at == i {
+                let t = flat_pos[mids[next_mid].target];
+                lk.push([mids[next_mid].skip, mids[next_mid].next, (t >> 8) as u8, t as u8]);
+                next_mid += 1;
+            }
+            debug_assert_eq!(lk.len(), flat_pos[i]);
             let skip = match s.next {
-                GNext::Cont => 0,
+                GNext::Cont => grown(i, 0) as u8,
                 GNext::Stop => 128,
-                GNext::Skip(m) => m,
+                GNext::Skip(m) => grown(i, m) as u8,
             };
             let (op, rem) = match s.op {
                 OpV::Kern(k) => {
@@ -2000,9 +2162,23 @@ fn write_tfm(f: &GFont, seed: u64, safe: bool) -> Written {
             };
             lk.push([skip, s.right, op, rem]);
         }
+        while next_mid < mids.len() {
+            let t = flat_pos[mids[next_mid].target];
+            // skip_byte 255 in the last word of the table would declare a left-boundary program (TeX 573)
+            let skip = if left_start.is_none() && next_mid + 1 == mids.len() { mids[next_mid].skip.min(254) } else { mids[next_mid].skip };
+            lk.push([skip, mids[next_mid].next, (t >> 8) as u8, t as u8]);
+            next_mid += 1;
+        }
         if let Some(p) = left_start {
-            let t = p + front;
+            let t = flat_pos[p];
             lk.push([255, 0, (t >> 8) as u8, t as u8]);
+            // the word that starts the left-boundary program is an indirect entry word like any other: a character
+            // whose program starts at the same instruction may enter through it
+            if let (false, true, Some(cs)) = (plain, lk.len() <= 256, by_pos.get(&p)) {
+                if e2.chance(2) {
+                    remainder.insert(cs[e2.below(cs.len())], (lk.len() - 1) as u8);
+                }
+            }
         }
     }
     // ---- extensible recipes
@@ -2072,7 +2248,7 @@ fn write_tfm(f: &GFont, seed: u64, safe: bool) -> Written {
         if !empty.is_empty() && e.chance(4) {
             let k = empty[e.below(empty.len())];
             // either the start of an instruction nobody else reaches, or the remainder of an existing character
-            let own: Vec<usize> = junk_before.iter().map(|p| p + front_len).filter(|p| *p < 256).collect();
+            let own: Vec<usize> = junk_before.iter().map(|p| flat_pos[*p]).filter(|p| *p < 256).collect();
             let shared: Vec<u8> = remainder.values().copied().collect();
             let r = if !own.is_empty() && (shared.is_empty() || e.chance(2)) {
                 Some(own[e.below(own.len())] as u8)
@@ -2132,7 +2308,7 @@ fn check_written(r: &Recipe, known_orphan: bool, case: &mut Case) -> Verdict {
     let seed = mix(fnv64(render(&full).as_bytes()), r.layout as u64 + 256 * r.fmt as u64);
     let want_full = intended(&full);
     let safe = unsafe_reasons(&want_full).is_empty() && want_full.lig.len() < PLTOTF_HASH_SIZE;
-    let wr = write_tfm(&full, seed, safe);
+    let wr = write_tfm(&full, seed, safe, &r.mid);
     // the font the file describes: a truncated header has no scheme / family / face
     let mut font = full.clone();
     if wr.lh < 12 {
@@ -2304,8 +2480,77 @@ fn raw_orphan_file(own: bool, inside: bool) -> RawCase {
     RawCase { what: format!("lig tag on a non-existent character {} the range of existing characters, {}", if inside { "inside" } else { "outside" }, if own { "the only way into its instruction" } else { "sharing its instruction with an existing character" }), hex }
 }
 
+/// A hand-made file for the lig/kern table: characters `exist` (all of width 0.5) in a font with bc = 'a', ec = 'z',
+/// lig tags `tags` (character, remainder), the lig/kern words and the kerns as given. lh = 2.
+fn raw_lig_file(what: &str, exist: &[u8], tags: &[(u8, u8)], lk: &[[u8; 4]], kerns: &[i32]) -> RawCase {
+    let (bc, ec) = (b'a' as usize, b'z' as usize);
+    let n = ec - bc + 1;
+    let mut ci = vec![[0u8; 4]; n];
+    for c in exist {
+        ci[*c as usize - bc] = [1, 0, 0, 0];
+    }
+    for (c, rem) in tags {
+        ci[*c as usize - bc][2] = 1;
+        ci[*c as usize - bc][3] = *rem;
+    }
+    let lf = 6 + 2 + n + 2 + 1 + 1 + 1 + lk.len() + kerns.len();
+    let mut b: Vec<u8> = vec![];
+    for v in [lf, 2, bc, ec, 2, 1, 1, 1, lk.len(), kerns.len(), 0, 0] {
+        b.extend((v as u16).to_be_bytes());
+    }
+    b.extend([0, 0, 0, 0, 0, 0xa0, 0, 0]); // check sum 0, design size 10
+    b.extend(ci.iter().flatten());
+    for v in [0i32, 1 << 19, 0, 0, 0] {
+        b.extend(v.to_be_bytes()); // widths 0, 0.5; height, depth, italic 0
+    }
+    b.extend(lk.iter().flatten());
+    for k in kerns {
+        b.extend(k.to_be_bytes());
+    }
+    RawCase { what: what.into(), hex: hex(&b) }
+}
+
+/// Indirect entry words (skip_byte > 128) in places where PLtoTF never writes them. All files are legal: TFtoPL 67
+/// marks a word that a lig tag points to "pass_through" wherever it sits, and no walk runs into one.
+fn raw_indirect_files() -> Vec<RawCase> {
+    let k = |tenths: i32| (1 << 20) / 10 * tenths;
+    let krn = |skip: u8, right: u8, ix: u8| [skip, right, 128, ix];
+    let lig = |skip: u8, right: u8, insert: u8| [skip, right, 0, insert];
+    let to = |skip: u8, target: u8| [skip, 0, 0, target];
+    vec![
+        raw_lig_file(
+            "indirect entry word of b inside the range that the program of a jumps over: 0: (a) KRN x SKIP 1, 1: (b) -> 3, 2: KRN y STOP, 3: KRN z STOP",
+            b"abwxyz",
+            &[(b'a', 0), (b'b', 1)],
+            &[krn(1, b'x', 0), to(254, 3), krn(128, b'y', 1), krn(128, b'z', 2)],
+            &[k(1), k(2), k(3)],
+        ),
+        raw_lig_file(
+            "indirect entry word shared by b and c between two programs and between two unreachable instructions, its target also entered directly by d: 0: (a) KRN x STOP, 1: unreachable, 2: (b, c) -> 4, 3: unreachable, 4: (d) KRN z, 5: LIG y w STOP",
+            b"abcdwxyz",
+            &[(b'a', 0), (b'b', 2), (b'c', 2), (b'd', 4)],
+            &[krn(128, b'x', 0), lig(128, b'w', b'w'), [200, 7, 0, 4], krn(0, b'y', 1), krn(0, b'z', 2), lig(128, b'y', b'w')],
+            &[k(1), k(2), k(3)],
+        ),
+        raw_lig_file(
+            "left-boundary program that jumps over the indirect entry word of b and an unreachable instruction, a enters through the left-boundary word, boundary char y: 0: BOUNDARYCHAR y, 1: KRN x SKIP 2, 2: (b) -> 5, 3: unreachable, 4: KRN y STOP, 5: LIG z w STOP, 6: (left boundary, a) -> 1",
+            b"abwxyz",
+            &[(b'a', 6), (b'b', 2)],
+            &[[255, b'y', 0, 0], krn(2, b'x', 0), to(129, 5), krn(128, b'w', 1), krn(128, b'y', 1), lig(128, b'z', b'w'), [255, 0, 0, 1]],
+            &[k(1), k(2)],
+        ),
+        raw_lig_file(
+            "two indirect entry words inside one jumped range, one of them pointing backwards, behind a step whose skip_byte jumps over indirect words only: 0: (a) KRN x, SKIP 1, 1: (c) -> 5, 2: (b) KRN y SKIP 2, 3: (d) -> 0, 4: (c2=w) -> 5, 5: KRN z STOP",
+            b"abcdwxyz",
+            &[(b'a', 0), (b'b', 2), (b'c', 1), (b'd', 3), (b'w', 4)],
+            &[krn(1, b'x', 0), to(130, 5), krn(2, b'y', 1), to(255, 0), to(131, 5), krn(128, b'z', 2)],
+            &[k(1), k(2), k(3)],
+        ),
+    ]
+}
+
 pub fn run(ctx: &Ctx) {
-    ctx.rule("A case is one font (a corpus .tfm, pl_to_tfm of a corpus .plst, pl_to_tfm of a generated property list rendered as PL text, or the same generated font laid out by an independent TFM writer with shuffled/duplicated/unused table entries, needless entry-point redirects and unreachable instructions) whose tfm_to_pl conversion is warning-free; it is non-trivial iff its lig/kern program has two labels (characters or the left boundary) walking through a common instruction, or more than 255 instructions, or a rule for the left or right boundary. Distinct = distinct generated structure / distinct file. Shapes that are generated and counted as classes: header lengths 2..17 and > 18 (last word zero), header strings of full length / with leading (TFM side) and trailing blanks, SLANT beyond 16, exactly 254 parameters, SKIP up to 127 over reachable and unreachable instructions and onto the last instruction, kern indices >= 256 in the canonical file, fonts mixing codes below and above 127 with every way of being seven-bit unsafe, lig/NEXTLARGER/VARCHAR tags on char_info words of non-existent characters inside and outside the range of existing characters (hand-made files in raw_tfm and the own writer).");
+    ctx.rule("A case is one font (a corpus .tfm, pl_to_tfm of a corpus .plst, pl_to_tfm of a generated property list rendered as PL text, or the same generated font laid out by an independent TFM writer with shuffled/duplicated/unused table entries, needless entry-point redirects at the front AND in the middle of the lig/kern table, and unreachable instructions) whose tfm_to_pl conversion is warning-free; it is non-trivial iff its lig/kern program has two labels (characters or the left boundary) walking through a common instruction, or more than 255 instructions, or a rule for the left or right boundary. Distinct = distinct generated structure / distinct file. Shapes that are generated and counted as classes: header lengths 2..17 and > 18 (last word zero), header strings of full length / with leading (TFM side) and trailing blanks, SLANT beyond 16, exactly 254 parameters, SKIP up to 127 over reachable and unreachable instructions and onto the last instruction, kern indices >= 256 in the canonical file, fonts mixing codes below and above 127 with every way of being seven-bit unsafe, lig/NEXTLARGER/VARCHAR tags on char_info words of non-existent characters inside and outside the range of existing characters (hand-made files in raw_tfm and the own writer), indirect entry words (skip_byte > 128) in the middle of the lig/kern table: inside the range a reachable SKIP jumps over (also of the left-boundary program, also two in one range, also as the only words jumped over), between two programs, next to unreachable instructions, behind the last instruction, pointing backwards, shared by several characters, beside a direct entry to the same start, unused, and the left-boundary word as the entry of a character (own writer, driven by the recipe field `mid`, and hand-made files in raw_tfm).");
     ctx.assume("Fonts whose first tfm_to_pl conversion warns, errors or panics are outside the quantifier and are skipped (counted).");
     ctx.assume("TFtoPL 52 upper-cases the coding scheme and family silently, PLtoTF 70 supplies UNSPECIFIED/face 0 for header fields a short header lacks, and PLtoTF recomputes the seven-bit-safe flag: the header comparison expects exactly these normalisations; header bytes TFtoPL never prints (padding after the strings, bytes 1-2 of word 17) are not compared.");
     ctx.assume("Characters are those with a non-zero width index; tags and lig/kern labels of non-existent characters are not compared, but files that carry them (own TFM writer, hand-made files) must still normalise to a fixed point.");
@@ -2313,6 +2558,7 @@ pub fn run(ctx: &Ctx) {
 
     ctx.assume("Generated fonts are loop-free by construction (a ligature only inserts a character of strictly higher level than every character whose program reaches the instruction and than the right character), reference only existing characters, keep |dimension| < 16, design size in [1,2048), at most 15/15/63 distinct non-zero heights/depths/italics and 255 widths; a generated font whose conversion is not warning-free is reported as a failure, not skipped.");
     ctx.assume("Fonts with more than 254 parameters, or whose seven-bit-safe flag is wrongly set, cannot be expressed in PL without a PLtoTF warning and are skipped (counted); any other pl_to_tfm warning about tfm_to_pl's own warning-free output is a failure.");
+    ctx.assume("No generated or hand-made font lets a lig/kern walk RUN INTO a word with skip_byte > 128 (by falling through, by a SKIP that lands on it, or as the start of the left-boundary program): TeX 1039 simply stops there, but TFtoPL 74 prints a bare (STOP) for such an accessible word, which PLtoTF 104 rejects (\"STOP must follow LIG or KRN\") or, behind a KRN/LIG, accepts with a different meaning of an earlier SKIP; the own writer enlarges the skip_byte of every step in front of an inserted word so that all walks jump over it.");
     let known_orphan = ctx.known(ORPHAN_FLAG);
     // VP_C11_SUB=generated|generated_tfm|corpus_tfm|corpus_pl|raw_tfm restricts a generate run to one sub-check (used for the sensitivity self-test).
     let only = std::env::var("VP_C11_SUB").ok().filter(|_| ctx.is_generate());
@@ -2336,7 +2582,13 @@ pub fn run(ctx: &Ctx) {
         };
         check_font(&t0, 0, known_orphan, case)
     });
-    let raws = if want("raw_tfm") { vec![raw_orphan_file(false, true), raw_orphan_file(true, true), raw_orphan_file(false, false), raw_orphan_file(true, false)] } else { vec![] };
+    let raws = if want("raw_tfm") {
+        let mut v = vec![raw_orphan_file(false, true), raw_orphan_file(true, true), raw_orphan_file(false, false), raw_orphan_file(true, false)];
+        v.extend(raw_indirect_files());
+        v
+    } else {
+        vec![]
+    };
     run_list(ctx, "raw_tfm", raws, |c: &RawCase, case: &mut Case| {
         case.note = Some(c.what.clone());
         match check_font(&unhex(&c.hex), 0, known_orphan, case) {
